@@ -39,6 +39,11 @@ def main() -> int:
     for s in range(seed0, seed0 + n):
         # vary the amount of executor activity between controller steps and the batch size
         kw = {"max_exec_steps": (0, 1, 2, 4, 8)[s % 5], "max_batch": (1, 2, 3, 6)[(s // 5) % 4]}
+        # every third execution is adversarial: one kind of executor step is starved (taken only when nothing else can happen),
+        # which produces the orders in which a purge, a store or a transfer command lags far behind the controller
+        if s % 3 == 2:
+            kw["starve"] = (frozenset({"store"}), frozenset({"datacmd"}), frozenset({"hostdeliver"}), frozenset({"store", "datacmd"}))[(s // 3) % 4]
+            kw["max_exec_steps"] = 8
         traces.append(record(inst, job, env, pre, s, expected, **kw))
     json.dump(traces, open(out, "w"))
     json.dump({"comp_of": comp_of, "complete": complete, "n_orders": n_orders}, open(out + ".meta", "w"))
